@@ -4,6 +4,12 @@ From Sdns Require Import Common.Base Gen.C10 C10.Model C10.ModelStream C10.Model
   C10.Proofs_UdpBase C10.Proofs_Stream C10.Proofs_Share.
 Open Scope nat_scope.
 
+(* ------------------------------------------------------------------ source ties of the stream side *)
+Lemma stream_constants :
+  tcp_job_buf_size = max_msg_size /\ min_tcp_frame_src = min_tcp_frame /\
+  (forall n, go_largeClass n = (Z.of_N tcp_small_frame <? n)%Z).
+Proof. repeat split. Qed.
+
 (* ------------------------------------------------------------------ pooled stream *)
 (* whatever the previous connection left in the stream (staged bytes, a sticky write error, ghost
    history), the next connection starts exactly like one on a brand-new stream *)
